@@ -22,6 +22,7 @@ import (
 	"github.com/mgtv-tech/redis-GunYu/pkg/redis/client/proto"
 	"github.com/mgtv-tech/redis-GunYu/syncer"
 
+	"verifh/fakeredis"
 	"verifh/hx"
 )
 
@@ -93,6 +94,22 @@ func main() {
 	ro := syncer.NewRedisOutput(syncer.RedisOutputConfig{InputName: "verif", CheckpointName: "cp", RunId: "r", TargetDb: -1,
 		BatchCmdCount: 10, BatchTicker: time.Hour, KeepaliveTicker: time.Hour, UpdateCheckpointTicker: time.Hour,
 		Stats: config.OutputStats{DisableLog: true}})
+	// a one-node cluster fake behind the real cluster client: the client's own request encoder
+	var clusterCli client.Redis
+	var clusterNode *fakeredis.Server
+	if cs, err := fakeredis.NewCluster(1); err == nil {
+		defer cs.Close()
+		clusterNode = cs.Nodes[0]
+		clusterNode.KeepRaw = true
+		cc, err := client.NewRedis(config.RedisConfig{Addresses: cs.Addrs(), Type: config.RedisTypeCluster, Otype: config.RedisTypeCluster, Version: "7.0.0"})
+		if err != nil {
+			hx.Fatal("cluster client: %v", err)
+		}
+		clusterCli = cc
+		defer cc.Close()
+	} else {
+		hx.Fatal("cluster fake: %v", err)
+	}
 	frags := [][]int{{1}, {2, 1}, {3}, {7, 1, 2}, {4096}, {1 << 20}}
 	bufs := []int{16, 64, 4096}
 
@@ -242,6 +259,55 @@ func main() {
 			os3 = append(os3, o)
 		}
 		_ = acc
+		// (4) the encoder of the cluster client (its own, not proto.Writer): what a cluster node receives, request by request
+		if clusterCli != nil {
+			base := len(clusterNode.RawCopy())
+			var sent [][][]byte
+			for _, args := range src {
+				size := 0
+				for _, a := range args {
+					size += len(a)
+				}
+				if len(args) < 2 || size > 1<<16 {
+					continue
+				}
+				ia := make([]interface{}, len(args)-1)
+				for k := range ia {
+					ia[k] = args[k+1]
+				}
+				clusterCli.Do(string(args[0]), ia...) // the node's answer does not matter here
+				sent = append(sent, args)
+			}
+			var got [][][]byte
+			for _, e := range clusterNode.RawCopy()[base:] {
+				if e.Name == "rpush" {
+					got = append(got, append([][]byte{[]byte(e.Name)}, e.Args...))
+				}
+			}
+			lens := func(cs [][][]byte) [][]int {
+				out := [][]int{}
+				for _, c := range cs {
+					l := []int{}
+					for _, a := range c {
+						l = append(l, len(a))
+					}
+					out = append(out, l)
+				}
+				return out
+			}
+			same := len(sent) == len(got)
+			for i := 0; same && i < len(sent); i++ {
+				same = len(sent[i]) == len(got[i])
+				for j := 0; same && j < len(sent[i]); j++ {
+					same = bytes.Equal(sent[i][j], got[i][j])
+				}
+			}
+			if len(sent) > 0 {
+				id += *shards
+				tr.Emit(map[string]interface{}{"id": id, "site": "ClusterEncoder", "sent": lens(sent), "got": lens(got), "same": same})
+				nObs++
+			}
+		}
 		id += *shards
 		noInl := make([]bool, len(lensAll))
 		tr.Emit(map[string]interface{}{"id": id, "site": "RoundTrip", "start": start, "hb": zero, "cmds": lensAll, "inl": noInl, "obs": os3})
